@@ -19,6 +19,9 @@ def gen_scenarios(rnd: random.Random, count):
     for j in range(count):
         m, nc, k, rounds, qb = configs[j % len(configs)]
         out.append({'m': m, 'nc': nc, 'k': k, 'rounds': rounds, 'qbound': qb,
+                    # who calls renew() between the rounds: the creating process, or consumer 1's process - on ITS copy of the
+                    # queue object, which arrived there by pickling
+                    'renewer': ('main', 'c1')[(j // len(configs)) % 2] if rounds > 1 else 'main',
                     # pauses (ms) before each operation of each party: varies who sees the bottom first
                     'pause': {f'{role}{n}': [rnd.choice([0, 0, 1, 3, 8]) for _ in range(8)]
                               for role, cnt in (('s', m), ('c', nc)) for n in range(1, cnt + 1)}})
@@ -55,7 +58,7 @@ def supplier_main(iq, s, sc, go, res_q):
         res_q.put(('error', 's', s, ''.join(traceback.format_exception(type(e), e, e.__traceback__))[-2000:], evs))
 
 
-def consumer_main(iq, c, sc, go, res_q):
+def consumer_main(iq, c, sc, go, res_q, renew_req=None, renew_ack=None):
     evs = []
     try:
         for r in range(1, sc['rounds'] + 1):
@@ -70,6 +73,11 @@ def consumer_main(iq, c, sc, go, res_q):
                 _pause(sc, f'c{c}', j + r)
             evs.append({'ev': 'ConsDone', 'n': c})
             res_q.put(('done', 'c', c, r))
+            if renew_req is not None and r < sc['rounds']:
+                if not renew_req[r - 1].wait(STEP_S):
+                    raise RuntimeError(f'round {r}: the request to renew never came')
+                iq.renew()
+                renew_ack[r - 1].set()
         res_q.put(('events', 'c', c, evs))
     except BaseException as e:  # noqa: BLE001
         import traceback
@@ -89,8 +97,12 @@ def _run_scenario(sc, box):
     procs = []
     for s in range(1, m + 1):
         procs.append(Process(target=supplier_main, args=(iq, s, sc, go, res_q), name=f'sup{s}'))
+    by_c1 = sc.get('renewer') == 'c1'
+    renew_req = [Event() for _ in range(rounds)] if by_c1 else None
+    renew_ack = [Event() for _ in range(rounds)] if by_c1 else None
     for c in range(1, nc + 1):
-        procs.append(Process(target=consumer_main, args=(iq, c, sc, go, res_q), name=f'con{c}'))
+        extra = (renew_req, renew_ack) if (by_c1 and c == 1) else ()
+        procs.append(Process(target=consumer_main, args=(iq, c, sc, go, res_q) + extra, name=f'con{c}'))
     box['procs'] = procs
     for p in procs:
         p.start()
@@ -120,7 +132,13 @@ def _run_scenario(sc, box):
             else:
                 pending.append(msg)
         if r < rounds:
-            iq.renew()
+            if by_c1:
+                renew_req[r - 1].set()
+                if not renew_ack[r - 1].wait(STEP_S):
+                    box['hang'] = {'what': f'round {r}: renew() in consumer 1 did not return within {STEP_S}s'}
+                    return
+            else:
+                iq.renew()
             main_evs.append({'ev': 'Renewed'})
     got = len([x for x in pending if x[0] == 'events'])
     for msg in pending:
